@@ -14,7 +14,9 @@ import (
 )
 
 // codec: the proxy's partial QUERY / EXECUTE / BATCH codecs against the reference codec, on message bodies.
-// op:   V:<version> O:<opcode 7|10|13> <hex body>
+// op:   V:<version> O:<opcode 7|10|13> [E:<header flags>:<hex of what precedes the message in the frame body>] <hex body>
+//       with E: the body is decoded the way proxy.go does it - CustomRawCodec.DecodeBody over a FrameBodyReader of
+//       the whole frame body (custom payload first) - instead of calling the message codec directly
 // real: part=<ok:fields|err> re=<hex of the partial message re-encoded|-> ref=<ok:fields|err>
 //       fields:  q=<hex query> | id=<hex> rm=<hex> ; c=<consistency> ; batch: t=<type> n=<children> ch=<kind:hex,...>
 
@@ -44,9 +46,18 @@ func runCodec(op string) (out string) {
 		}
 	}()
 	var v, o int
-	var body []byte
+	var body, prefix []byte
+	envFlags, env := 0, false
 	for _, t := range strings.Fields(op) {
 		switch {
+		case strings.HasPrefix(t, "E:"):
+			p := strings.SplitN(t[2:], ":", 2)
+			fmt.Sscan(p[0], &envFlags)
+			if len(p) > 1 {
+				prefix, _ = hex.DecodeString(p[1])
+			}
+			env = true
+		case strings.HasPrefix(t, "M:"):
 		case strings.HasPrefix(t, "V:"):
 			fmt.Sscan(t[2:], &v)
 		case strings.HasPrefix(t, "O:"):
@@ -59,7 +70,19 @@ func runCodec(op string) (out string) {
 	opcode := primitive.OpCode(o)
 	pc := partialCodecFor(opcode)
 	part, re := "err", "-"
-	if msg, err := pc.Decode(codecs.NewFrameBodyReader(body), version); err == nil {
+	decode := func() (message.Message, error) {
+		if !env {
+			return pc.Decode(codecs.NewFrameBodyReader(body), version)
+		}
+		whole := append(append([]byte{}, prefix...), body...)
+		hdr := &frame.Header{Version: version, Flags: primitive.HeaderFlag(envFlags), StreamId: 1, OpCode: opcode, BodyLength: int32(len(whole))}
+		b, err := codecs.CustomRawCodec.DecodeBody(hdr, codecs.NewFrameBodyReader(whole))
+		if err != nil {
+			return nil, err
+		}
+		return b.Message, nil
+	}
+	if msg, err := decode(); err == nil {
 		switch m := msg.(type) {
 		case *codecs.PartialQuery:
 			part = fmt.Sprintf("ok:q=%s;c=%d", hex.EncodeToString([]byte(m.Query)), m.Consistency)
@@ -253,6 +276,18 @@ func genCodec(e *emitter, r *rng.R, n int, tier string) {
 			continue
 		}
 		emit(v, op, body)
+		if v >= 4 && rr.Intn(3) == 0 { // the same body inside a frame that carries a custom payload and/or the tracing flag
+			var pre bytes.Buffer
+			flags := 0
+			if rr.Intn(4) > 0 {
+				flags |= 4
+				_ = primitive.WriteBytesMap(map[string][]byte{"graph-source": []byte("g"), strings.Repeat("k", rr.Intn(9)): rr.Bytes(rr.Intn(12)), "nil": nil}, &pre)
+			}
+			if rr.Intn(3) == 0 {
+				flags |= 2
+			}
+			ops[len(ops)-1] = fmt.Sprintf("V:%d O:%d E:%d:%s %s", v, op, flags, hex.EncodeToString(pre.Bytes()), hex.EncodeToString(body))
+		}
 		valid := emit
 		emit := func(v primitive.ProtocolVersion, op primitive.OpCode, body []byte) {
 			valid(v, op, body)
